@@ -340,9 +340,13 @@ def listing(chk, P):
     entry = W.console_entry(P)
     site = entry.site()
     r, printed, out = _potable_query(P, text, list_items=TRUE)
-    if r.raised is not None or r.parser.errors or printed is None:
-        raise AnalysisError("potable --list-items on the all-sections model did not print a concrete listing: %r %r %r"
-                            % (r.raised, r.parser.errors, out))
+    normal = r.raised is None and not r.parser.errors and isinstance(r.exit, Num) and r.exit.const() == 0
+    chk.ob("C14.O4", "potable --list-items MODEL ends normally (exit status 0, no error reported)", normal, site=site,
+           found=(r.raised, r.parser.errors, r.exit), expect="exit 0", key="C14.O4|list-items-exit")
+    if printed is None:
+        if not normal:
+            return
+        raise AnalysisError("potable --list-items on the all-sections model did not print a concrete listing: %r" % (out,))
     lines = printed.split("\n")
     chk.ob("C14.O4", "--list-items prints 'SECTION:KEY=VALUE' lines, one per item, each ended by a newline",
            lines[-1] == "" and all("=" in ln for ln in lines[:-1]), site=site, found=printed[:200], expect="LABEL=VALUE lines",
